@@ -53,6 +53,15 @@ inductive Scope where
   | indices (l : Loc) (idx : List Int)     -- `l` is (min, max + 1) for AvoidChanges, the full span for EnforceChanges
 deriving Repr, DecidableEq
 
+/-- `localization_data` of a localized UniquifyAllKmers: fixed k-mers and changing indices for the
+    specification's location and for its reference ("extended") -/
+structure KmerData where
+  locFixed : List Seq
+  locChanging : List Int
+  extFixed : List Seq
+  extChanging : List Int
+deriving Repr, DecidableEq
+
 structure BEval (K : Type) where
   score : K
   locs : Option (List Loc)
@@ -71,6 +80,8 @@ inductive BSpec (K : Type) where
   | lengthBounds (minLen : Int) (maxLen : Option Int)
   | rareCodons (minFreq : K) (freqs : List (Seq × K)) (loc : Loc)
   | cai (logFreq : List (Seq × K)) (logBest : List (Char × K)) (codonAA : List (Seq × Char)) (loc : Loc)
+  | kmers (k : Nat) (rc : Bool) (loc ref : Loc) (data : Option KmerData)
+  | hairpins (stem window : Nat) (loc : Loc)
 
 namespace BSpec
 variable {K : Type} [NumK K]
@@ -136,6 +147,76 @@ def scopeSize (sc : Scope) : Int :=
   match sc with
   | .loc l => l.len
   | .indices _ idx => idx.length
+
+/-- `extract_kmer(i)` of UniquifyAllKmers on the whole sequence; `none` = KeyError in reverse_complement -/
+def kmerAt (s : Seq) (rcSeq : Option Seq) (k : Nat) (i : Int) : Seq :=
+  let sub := pySlice s i (i + k)
+  match rcSeq with
+  | none => sub
+  | some r =>
+    let L : Int := s.length
+    let rcv := pySlice r (L - i - k) (L - i)
+    if seqLt rcv sub then rcv else sub
+
+/-- first index of `word` as a substring of `text` (`str.index`) -/
+def findSub (word : Seq) : Seq → Option Nat
+  | [] => if word.isEmpty then some 0 else none
+  | c :: cs => if word.isPrefixOf (c :: cs) then some 0 else (findSub word cs).map (· + 1)
+
+/-- group items by key, keys in first-occurrence order (a Python dict of lists) -/
+def groupByKey {α : Type} (items : List (Seq × α)) : List (Seq × List α) :=
+  items.foldl (fun acc p =>
+    if acc.any (fun q => q.1 == p.1) then acc.map (fun q => if q.1 == p.1 then (q.1, q.2 ++ [p.2]) else q)
+    else acc ++ [(p.1, [p.2])]) []
+
+/-- the k-mer extractor's reverse-complemented sequence (`none` inside = no reverse complement;
+    outer `none` = KeyError) -/
+def kmerRc (s : Seq) (rc : Bool) : Option (Option Seq) :=
+  if rc then (reverseComplement s).map some else some none
+
+/-- `UniquifyAllKmers.evaluate` (global or local form) -/
+def evaluateKmers (k : Nat) (rc : Bool) (loc ref : Loc) (data : Option KmerData) (s : Seq) : Option (BEval K) :=
+  match kmerRc s rc with
+  | none => none
+  | some r =>
+    match data with
+    | none =>
+      let idxs := rangeStep ref.start (ref.stop - k) 1
+      let groups := groupByKey (idxs.map (fun i => (kmerAt s r k i, i)))
+      let starts : List Int := (groups.filter (fun g => g.2.length > 1)).flatMap (fun g =>
+        g.2.filter (fun st => decide (loc.start ≤ st ∧ st < st + k ∧ st + (k : Int) < loc.stop)))
+      let sorted := starts.mergeSort (· ≤ ·)
+      some ⟨NumK.ofInt (-(sorted.length : Int)), some (sorted.map (fun st => ⟨st, st + k, 0⟩))⟩
+    | some d =>
+      let varLoc := groupByKey (d.locChanging.map (fun i => (kmerAt s r k i, i)))
+      let varExt := groupByKey (d.extChanging.map (fun i => (kmerAt s r k i, i)))
+      let dup : List Int := (varLoc.filter (fun g => g.2.length > 1)).flatMap (·.2)
+      let locKeys := varLoc.map (·.1)
+      let extKeys := varExt.map (·.1)
+      let part1 : List Int := [extKeys, d.locFixed, d.extFixed].flatMap (fun c =>
+        (varLoc.filter (fun g => c.contains g.1)).flatMap (·.2))
+      let part2 : List Int := [locKeys, d.locFixed].flatMap (fun c =>
+        (varExt.filter (fun g => c.contains g.1)).flatMap (·.2))
+      let all := dup ++ part1 ++ part2
+      some ⟨NumK.ofInt (-(all.length : Int)), some (all.map (fun i => ⟨i, i + k, 0⟩))⟩
+
+/-- `AvoidHairpins.evaluate` -/
+def evaluateHairpins (stem window : Nat) (loc : Loc) (s : Seq) : Option (BEval K) :=
+  match loc.extract s with
+  | none => none
+  | some sub =>
+    match reverseComplement sub with
+    | none => none
+    | some rev =>
+      let hits : List (Int × Int) := (List.range (sub.length - stem)).filterMap (fun (i : Nat) =>
+        let word := (sub.drop i).take stem
+        let rest := pySlice rev (-((i : Int) + window)) (-((i : Int) + stem))
+        (findSub word rest).map (fun idx => ((i : Int), (i : Int) + window - (idx : Int) - 1)))
+      let groups := groupNearbySegments hits none (some 10)
+      let locs := (groups.filterMap (fun g => match g.head?, g.getLast? with
+        | some a, some z => some (⟨a.1, z.2, 0⟩ : Loc)
+        | _, _ => none)).mergeSort Loc.le
+      some ⟨NumK.ofInt (-(hits.length : Int)), some locs⟩
 
 /-- `evaluate(problem)`: `none` = the implementation raises -/
 def evaluate (b : BSpec K) (s : Seq) : Option (BEval K) :=
@@ -290,6 +371,8 @@ def evaluate (b : BSpec K) (s : Seq) : Option (BEval K) :=
         let idx := (List.range nonopt.length).filter (fun i =>
           match nonopt[i]? with | some v => !Score.eq v (Score.zero : K) | none => false)
         some ⟨NumK.neg (NumK.sum nonopt), some (codonIndicesToLocs loc idx)⟩
+  | kmers k rc loc ref data => evaluateKmers k rc loc ref data s
+  | hairpins stem window loc => evaluateHairpins stem window loc s
 
 /-- the codon-aligned sub-location of `CodonSpecification.localized` and the codon range -/
 def codonWindow (self overlap : Loc) : Loc × Nat × Nat :=
@@ -399,6 +482,41 @@ def localized (b : BSpec K) (location : Loc) (rh : Option Bool) : Localized K :=
     match loc.overlap location with
     | none => .none
     | some ov => .new (cai lf lb ca (codonWindow loc ov).1)
+  | kmers _ _ _ _ _ => .same      -- needs the problem's sequence: see `localizedKmers`
+  | hairpins stem window loc =>
+    match loc.overlap location with
+    | none => .none
+    | some nl =>
+      let st := max loc.start (nl.start - window)
+      let en := if right then min loc.stop (nl.stop + window) else nl.stop
+      .new (hairpins stem window ⟨st, en, nl.strand⟩)
+
+/-- `l.indices[:m]` for a possibly negative `m` -/
+def indicesUpTo (l : Loc) (m : Int) : List Int := pySliceTo l.indices m
+
+/-- `UniquifyAllKmers.localized(location, problem, with_righthand)` (uses the problem's sequence);
+    `none` = KeyError -/
+def localizedKmers (k : Nat) (rc : Bool) (loc ref : Loc) (location : Loc) (rh : Option Bool) (s : Seq) :
+    Option (Localized K) :=
+  match location.overlap ref with
+  | none => some .none
+  | some _ =>
+    match kmerRc s rc with
+    | none => none
+    | some r =>
+      let right := rh.getD true
+      let reference := location.extended ((k : Int) - 1) 0 Option.none true right
+      match reference.overlap ref with
+      | none => none      -- `None.indices`: AttributeError
+      | some zone =>
+        let changing := indicesUpTo zone (-(k : Int) + 1)
+        let part (l : Loc) : List Seq × List Int :=
+          let kidx := dedup (indicesUpTo l (-(k : Int)))
+          let fixedIdx := kidx.filter (fun i => !changing.contains i)
+          (dedup (fixedIdx.map (fun i => kmerAt s r k i)), kidx.filter (fun i => changing.contains i))
+        let pl := part loc
+        let pe := part ref
+        some (.new (kmers k rc zone ref (some ⟨pl.1, pl.2, pe.1, pe.2.filter (fun i => !pl.2.contains i)⟩)))
 
 /-- `restrict_nucleotides(sequence)`; `none` = raises -/
 def restrict (b : BSpec K) (s : Seq) : Option (List Space.Restriction) :=
